@@ -37,7 +37,7 @@ def read_battery(rng, cfg, exp, files):
 
 def check_reads(res, cfg, exp, chdir, files, hist, rng, sig_prefix=""):
     import digital_rf
-    r = digital_rf.DigitalRFReader(os.path.dirname(chdir))
+    r = digital_rf.DigitalRFReader(common.path_form(os.path.dirname(chdir)))
     for (s, e) in read_battery(rng, cfg, exp, files):
         want = wl.runs_of(exp, s, e)
         try:
